@@ -997,10 +997,11 @@ class PandasModelBase(
                 "op was supposed to be a data_algebra.data_ops.MapColumnsNode"
             )
         res = self._eval_value_source(op.sources[0], data_map=data_map)
-        res = res.rename(columns=op.column_remapping)
+        # deletions first: a column may be renamed to the name of a deleted column
         if (op.column_deletions is not None) and (len(op.column_deletions) > 0):
             column_selection = [c for c in res.columns if c not in op.column_deletions]
             res = res[column_selection]
+        res = res.rename(columns=op.column_remapping)
         return res
 
     def _rename_columns_step(self, op, *, data_map):
